@@ -8,6 +8,18 @@ use alloc::borrow::Cow;
 use alloc::vec::Vec;
 use core::cmp::Ordering;
 
+impl TypeName {
+    /// stored type name with an explicit classification byte (1 Internal, 2 UserDefined,
+    /// 3 Internal2, 4 Internal3), as TypeName::from_bytes would produce it
+    pub(crate) fn verif_raw(cls: u8, name: &str) -> Self {
+        Self {
+            classification: TypeClassification::from_byte(cls),
+            name: alloc::string::String::from(name),
+            legacy_classification: None,
+        }
+    }
+}
+
 // ---- oracles written independently of the code under test -------------------------------
 
 /// lexicographic byte order (the documented order of &[u8] and, via UTF-8, of str)
@@ -321,7 +333,7 @@ fn str_case<const M: usize>() {
     }
 }
 
-// @harness props=C15 tier=quick timeout=900 mem=12 stubbing=1
+// @harness props=C15 tier=quick timeout=900 mem=12 stubbing=1 replay=native
 // @desc &str and String: compare == byte order of the UTF-8 encodings, round trip, min key valid and least, separator is well-formed UTF-8 with a <= s < b and len(s) <= len(a); real compare() does not panic on the separator
 // @functions <&str as Key>::{compare,separator,min_encoded_key}, round_up_to_char_boundary, <String as Key>::{compare,separator}, <&str as Value>::from_bytes
 // @bound both keys are arbitrary well-formed UTF-8 strings of 0..=5 bytes (one 4-byte character plus one byte)
@@ -334,7 +346,7 @@ fn c15_str_le5() {
     str_case::<5>();
 }
 
-// @harness props=C15 tier=thorough timeout=3600 mem=16 stubbing=1
+// @harness props=C15 tier=thorough timeout=3600 mem=16 stubbing=1 replay=native
 // @desc as c15_str_le5 with 0..=8 bytes
 // @functions <&str as Key>::{compare,separator,min_encoded_key}, round_up_to_char_boundary
 // @bound both keys are arbitrary well-formed UTF-8 strings of 0..=8 bytes
@@ -481,7 +493,7 @@ fn c15_option_bytes() {
     option_var_case::<Option<&[u8]>, 5>(false);
 }
 
-// @harness props=C15 tier=quick timeout=900 mem=12 stubbing=1
+// @harness props=C15 tier=quick timeout=900 mem=12 stubbing=1 replay=native
 // @desc Option<&str>: as Option<&[u8]>, payloads well-formed UTF-8, separator payload well-formed
 // @functions <Option<&str> as Key>::{compare,separator,min_encoded_key}, <&str as Key>::{compare,separator}
 // @bound both encodings arbitrary valid Option<&str> encodings of 1..=4 bytes (tag + one 3-byte character)
